@@ -41,6 +41,7 @@ class Rec:
         self.emitted = []        # per tick: list of pipeline ids emitted by the workload
         self.op_index = {}       # id(op) -> (pipeline order, op order)
         self.hold = []           # keeps every object whose id() is used as a key alive
+        self.internal = False    # True: run_simulator builds its own WorkloadGenerator; the scheduler wrapper keeps the clock
 
     def probe(self, k, n=1):
         self.probes[k] = self.probes.get(k, 0) + n
@@ -149,6 +150,11 @@ def ensure_wrapper(algo):
     def step(s, results, pipelines):
         R = REC
         ex = s.executor
+        if R.internal:
+            R.tick += 1
+            R.log.tick = R.tick
+            R.note_arrivals(pipelines)
+            R.emitted.append([p.pipeline_id for p in pipelines])
         rd = {"tick": R.tick, "results": list(results), "new": list(pipelines)}
         rd["pre"] = [(pl.avail_cpu_pool, pl.avail_ram_pool) for pl in ex.pools]
         rd["pre_failed"] = {p.pipeline_id: p.runtime_status().state_counts[S.FAILED] for p in R.pipes}
@@ -359,7 +365,10 @@ def run(scn, oracles=(), workload_factory=None, keep_rounds=True):
            "nontrivial": False, "ended_by": "end"}
     stats = None
     try:
-        if workload_factory is not None:
+        if workload_factory == "internal":
+            rec.internal = True
+            wl = None
+        elif workload_factory is not None:
             wl = workload_factory(rec)
         elif "pipes" in scn:
             wl = make_scn_workload(scn, rec)
